@@ -12,6 +12,7 @@ def jn (n : Nat) : Json := Json.num (JsonNumber.fromNat n)
 def encCall : Call → Json
   | .normal n => Json.arr #[Json.str "normal", jn n]
   | .dice => Json.arr #[Json.str "dice"]
+  | .choice n => Json.arr #[Json.str "choice", jn n]
 
 def encPos (p : Pos) : Json := Json.arr #[jn p.seed, Json.arr (p.pre.map encCall).toArray]
 
@@ -71,7 +72,11 @@ open SeedsWire
 def c04Chunks : Op := fun j => do
   let sigmaPos ← bool j "sigmaPos"
   let old := (optFld j "old").bind (fun b => b.getBool?.toOption) |>.getD false
-  let c : Cfg := { sigmaPos := sigmaPos }
+  -- "random": n = the constructor was given storeStates = "random_n"
+  let mask : MaskSpec := match (optFld j "random").bind (fun v => v.getNat?.toOption) with
+    | some n => .random n
+    | none => .det []
+  let c : Cfg := { sigmaPos := sigmaPos, mask := mask }
   let runF := if old then runOld else run
   let pre ← decOps (← fld j "pre")
   let chunks ← match optFld j "chunks" with
